@@ -68,7 +68,8 @@ def _run(names, extra, tier, tree):
                       f"{'no-failing-input-found' if c.returncode == 1 and lines and all('no-failing-input-found' in l for l in lines if l.startswith('VIOLATION')) else ''} ({res[p]['seconds']} s)")
         finally:
             sh(["git", "-C", tree, "checkout", "--", "."])
-        json.dump(dict(tier=tier, results=res), open(os.path.join(d, "result.json"), "w"), indent=1)
+        sd = os.environ.get("VERIF_SEED", "0") or "0"
+        json.dump(dict(tier=tier, seed=sd, results=res), open(os.path.join(d, "result.json" if sd == "0" else "result.seed%s.json" % sd), "w"), indent=1)
 
 
 if __name__ == "__main__":
